@@ -414,3 +414,46 @@ def run_engine(prop, cases, jit=True, timeout=3000):
                 os.remove(x)
             except OSError:
                 pass
+
+
+# ----------------------------------------------------------------------------- source fingerprints
+def _ast_hash(path, qual):
+    """hash of the normalised AST (no docstrings, no comments, no positions) of function/method `qual`"""
+    import ast
+    tree = ast.parse(open(path).read())
+    node = tree
+    for part in qual.split("."):
+        found = None
+        for ch in ast.iter_child_nodes(node):
+            if isinstance(ch, (ast.FunctionDef, ast.ClassDef, ast.AsyncFunctionDef)) and ch.name == part:
+                found = ch
+                break
+        if found is None:
+            return None
+        node = found
+    for n in ast.walk(node):
+        body = getattr(n, "body", None)
+        if isinstance(body, list) and body and isinstance(body[0], ast.Expr) and \
+                isinstance(getattr(body[0], "value", None), ast.Constant) and isinstance(body[0].value.value, str):
+            n.body = body[1:] or [ast.Pass()]
+    return hashlib.sha256(ast.dump(node, annotate_fields=False, include_attributes=False).encode()).hexdigest()[:16]
+
+
+def current_fingerprints(modelled):
+    out = {}
+    for item in modelled:
+        if not isinstance(item, str) or item.count(":") != 1:
+            continue
+        rel, qual = item.split(":")
+        p = os.path.join(REPO, rel)
+        out[item] = _ast_hash(p, qual) if os.path.exists(p) else None
+    return out
+
+
+def changed_sources(prop, modelled):
+    """functions whose normalised AST differs from the snapshot the model was written against
+    (harness/source_map.json). A changed hash proves nothing by itself; it multiplies the case budget."""
+    path = os.path.join(VERIF, "harness", "source_map.json")
+    snap = json.load(open(path)).get(prop, {}) if os.path.exists(path) else {}
+    cur = current_fingerprints(modelled)
+    return sorted(k for k in cur if k in snap and snap[k] != cur[k]), sorted(k for k in cur if k not in snap)
